@@ -1,5 +1,816 @@
-//! C11 harness — to be written (see /verif/mc/HARNESS_GUIDE.md).
+//! C11 — naive Bayes stores the data's sufficient statistics and predicts the MAP class.
+//!
+//! E1 over (variant, training set, labelling, label values, alpha, user priors, binarisation): every
+//! training set over a small sharp alphabet with every labelling is fitted with the real library,
+//! every reported statistic is compared with closed-form reference statistics, and every row of the
+//! query lattice is predicted and compared with the reference MAP set. Three job kinds:
+//!
+//! * `lat`  — the exhaustive lattice (DESIGN §4 C11),
+//! * `fam`  — deterministic structured families up to 120 rows / 8 features / 5 classes (every member),
+//! * `goff` — the Gaussian lattice translated by large offsets (numerical robustness of the moments).
+
+mod reference;
+
+use mc_core::{self as mc, json, Harness, Job, Plan, Tier, Value};
+use mc_sc::dm;
+use reference::{check, Inst, Obs, Pred, V};
+use smartcore::error::Failed;
+use smartcore::linalg::naive::dense_matrix::DenseMatrix;
+use smartcore::naive_bayes::bernoulli::{BernoulliNB, BernoulliNBParameters};
+use smartcore::naive_bayes::categorical::{CategoricalNB, CategoricalNBParameters};
+use smartcore::naive_bayes::gaussian::{GaussianNB, GaussianNBParameters};
+use smartcore::naive_bayes::multinomial::{MultinomialNB, MultinomialNBParameters};
+use std::cell::RefCell;
+use std::collections::BTreeMap;
+use std::rc::Rc;
+
+struct C11;
+
+type DM = DenseMatrix<f64>;
+
+// ------------------------------------------------------------------------------------------------
+// alphabets (seed 0 = the plain alphabets of DESIGN §4 C11; seeds 1..7 select other complete spaces)
+
+const G_BASE: [f64; 4] = [-1.0, 0.0, 2.0, 5.0];
+const G_XFORM: [(f64, f64); 8] = [(1.0, 0.0), (1.0, 0.25), (3.0, 0.0), (0.5, -0.5), (1024.0, 0.0), (1.0 / 1024.0, 0.0), (1.0, 7.0), (-1.0, 0.5)];
+const M_ALPH: [[f64; 4]; 8] = [
+    [0.0, 1.0, 2.0, 3.0],
+    [0.0, 1.0, 2.0, 4.0],
+    [0.0, 1.0, 3.0, 5.0],
+    [0.0, 2.0, 3.0, 7.0],
+    [0.0, 1.0, 4.0, 6.0],
+    [0.0, 3.0, 5.0, 8.0],
+    [0.0, 1.0, 2.0, 9.0],
+    [0.0, 2.0, 4.0, 5.0],
+];
+const B_REAL: [f64; 4] = [-0.5, 0.2, 0.7, 1.5];
+const B_REAL_THR: [f64; 3] = [0.0, 0.5, 0.7];
+const B_SHIFT: [f64; 8] = [0.0, 0.25, -1.0, 3.0, 0.125, -0.375, 10.0, -7.5];
+const C_ALPH: [f64; 3] = [0.0, 1.0, 2.0];
+const C_LABELS: usize = 4; // categorical label values 0..=3 (gaps = empty classes)
+const ALPHAS: [[f64; 3]; 8] = [
+    [1.0, 0.01, 5.0],
+    [1.0, 0.05, 2.0],
+    [1.0, 0.5, 3.0],
+    [1.0, 0.02, 4.5],
+    [1.0, 0.1, 1.5],
+    [1.0, 0.25, 4.0],
+    [1.0, 0.03, 2.5],
+    [1.0, 0.75, 5.0],
+];
+
+fn alphabet(v: V, real: bool, seed: u64, asz: usize) -> Vec<f64> {
+    let s = (seed % 8) as usize;
+    let a: Vec<f64> = match v {
+        V::G => G_BASE.iter().map(|x| x * G_XFORM[s].0 + G_XFORM[s].1).collect(),
+        V::M => M_ALPH[s].to_vec(),
+        V::B if real => B_REAL.iter().map(|x| x + B_SHIFT[s]).collect(),
+        V::B => vec![0.0, 1.0],
+        V::C => C_ALPH.to_vec(),
+    };
+    a[..asz.min(a.len())].to_vec()
+}
+
+/// Binarisation setting for a Bernoulli configuration index.
+fn binarize(real: bool, seed: u64, idx: usize) -> Option<f64> {
+    if real {
+        Some(B_REAL_THR[idx] + B_SHIFT[(seed % 8) as usize])
+    } else {
+        [None, Some(0.0), Some(0.5)][idx]
+    }
+}
+
+const TWO40: f64 = 1099511627776.0;
+const TWO52: f64 = 4503599627370496.0;
+
+/// Label values of the k classes (ascending), by label-map index. Index 0 is 0..k-1.
+fn label_map(k: usize, idx: usize) -> Vec<f64> {
+    let t: Vec<f64> = match (k, idx) {
+        (_, 0) => (0..k).map(|c| c as f64).collect(),
+        (2, 1) => vec![-3.0, 7.0],
+        (2, 2) => vec![2.0, 3.0],
+        (2, 3) => vec![-1.0, 1.0],
+        (3, 1) => vec![-3.0, 7.0, 10.0],
+        (3, 2) => vec![1.0, 2.0, 4.0],
+        (3, 3) => vec![-TWO40, 5.0, TWO52],
+        (_, 1) => vec![-7.0, -3.0, 2.0, 10.0, 11.0],
+        (_, 2) => vec![3.0, 4.0, 5.0, 6.0, 7.0],
+        _ => vec![-TWO40, -1.0, 0.0, 2147483649.0, TWO52],
+    };
+    t[..k].to_vec()
+}
+
+/// Label values used by the categorical families (index 1 leaves classes 0,3,5,6 empty).
+fn cat_label_map(k: usize, idx: usize) -> Vec<f64> {
+    let t: [f64; 5] = if idx == 0 { [0.0, 1.0, 2.0, 3.0, 4.0] } else { [1.0, 2.0, 4.0, 7.0, 8.0] };
+    t[..k].to_vec()
+}
+
+/// User-supplied priors (exact binary fractions summing to one), by index 1 or 2; index 0 = none.
+fn user_priors(k: usize, idx: usize) -> Option<Vec<f64>> {
+    let v: &[f64] = match (k, idx) {
+        (_, 0) => return None,
+        (2, 1) => &[0.75, 0.25],
+        (2, _) => &[0.125, 0.875],
+        (3, 1) => &[0.5, 0.125, 0.375],
+        (3, _) => &[0.0625, 0.6875, 0.25],
+        (4, 1) => &[0.125, 0.5, 0.25, 0.125],
+        (4, _) => &[0.4375, 0.0625, 0.0625, 0.4375],
+        (5, 1) => &[0.0625, 0.25, 0.125, 0.5, 0.0625],
+        (5, _) => &[0.3125, 0.0625, 0.25, 0.0625, 0.3125],
+        _ => panic!("no user priors for k={}", k),
+    };
+    Some(v.to_vec())
+}
+
+// ------------------------------------------------------------------------------------------------
+// configurations: [label map, alpha, priors, binarisation] indices
+
+type Cfg = [usize; 4];
+
+fn cfg_dims(v: V, real: bool) -> [usize; 4] {
+    match v {
+        V::G => [4, 1, 3, 1],
+        V::M => [4, 3, 3, 1],
+        V::B => [4, 3, 3, if real { B_REAL_THR.len() } else { 3 }],
+        V::C => [1, 3, 1, 1],
+    }
+}
+
+/// `part` = 1: the full cross product; 3: the tuples whose index sum is ≡ 0 (mod 3) — every pair of
+/// values of two three-valued dimensions still occurs; 0: a three-element diagonal.
+fn cfg_set(v: V, real: bool, part: usize) -> Vec<Cfg> {
+    let d = cfg_dims(v, real);
+    let mut out = Vec::new();
+    if part == 0 {
+        for i in 0..3 {
+            out.push([(i * 3 + 1) % d[0], i % d[1], (i + 1) % d[2], (i + 2) % d[3]]);
+        }
+        out.dedup();
+        return out;
+    }
+    for a in 0..d[0] {
+        for b in 0..d[1] {
+            for c in 0..d[2] {
+                for e in 0..d[3] {
+                    if part == 1 || (a + b + c + e) % 3 == 0 {
+                        out.push([a, b, c, e]);
+                    }
+                }
+            }
+        }
+    }
+    out
+}
+
+// ------------------------------------------------------------------------------------------------
+// labellings
+
+thread_local! {
+    static LABS: RefCell<BTreeMap<(u8, usize, usize), Rc<Vec<Vec<u8>>>>> = RefCell::new(BTreeMap::new());
+}
+
+/// Every labelling of n rows, lexicographic (simplest first).
+/// G/M/B: onto exactly k classes (class indices 0..k-1; Gaussian: every class has >= 2 rows, a
+/// one-row class has zero variance and is outside "valid training set").
+/// C: label VALUES in 0..C_LABELS with at least two distinct values (k is ignored); values that do
+/// not occur below the maximum are empty classes.
+fn labellings(v: V, n: usize, k: usize) -> Rc<Vec<Vec<u8>>> {
+    let key = (v as u8, n, k);
+    if let Some(l) = LABS.with(|c| c.borrow().get(&key).cloned()) {
+        return l;
+    }
+    let base = if v == V::C { C_LABELS } else { k };
+    let mut out = Vec::new();
+    let mut cur = vec![0u8; n];
+    loop {
+        let mut cnt = vec![0usize; base];
+        cur.iter().for_each(|c| cnt[*c as usize] += 1);
+        let ok = match v {
+            V::C => cnt.iter().filter(|c| **c > 0).count() >= 2,
+            V::G => cnt.iter().all(|c| *c >= 2),
+            _ => cnt.iter().all(|c| *c >= 1),
+        };
+        if ok {
+            out.push(cur.clone());
+        }
+        let mut i = n;
+        loop {
+            if i == 0 {
+                let r = Rc::new(out);
+                LABS.with(|c| c.borrow_mut().insert(key, r.clone()));
+                return r;
+            }
+            i -= 1;
+            cur[i] += 1;
+            if (cur[i] as usize) < base {
+                break;
+            }
+            cur[i] = 0;
+        }
+    }
+}
+
+// ------------------------------------------------------------------------------------------------
+// the library under test
+
+fn fitted<T>(v: V, r: Result<Result<T, Failed>, mc::PanicInfo>, inst: &Inst) -> Option<T> {
+    match r {
+        Ok(Ok(m)) => Some(m),
+        Ok(Err(e)) => {
+            mc::violation(format!("{}.fit:error", v.name()), format!("{}: fit returned an error on a valid training set: {}", inst.brief(), e));
+            None
+        }
+        Err(p) => {
+            let sfx = if p.is_overflow_check() { ":overflow-check" } else { "" };
+            mc::violation(format!("{}.fit:panic{}", v.name(), sfx), format!("{}: fit panicked: {}", inst.brief(), p.brief()));
+            None
+        }
+    }
+}
+
+fn to_pred(r: Result<Result<Vec<f64>, Failed>, mc::PanicInfo>) -> Pred {
+    match r {
+        Ok(Ok(l)) => Pred::Labels(l),
+        Ok(Err(e)) => Pred::Failed(e.to_string()),
+        Err(p) => Pred::Panicked(p.brief()),
+    }
+}
+
+/// The priors are not exposed by an accessor for three of the four variants; the serialised model
+/// reports them.
+fn serde_priors<S: serde::Serialize>(m: &S) -> Option<Vec<f64>> {
+    // the text form is scanned for the one field wanted (cheaper than building a Value tree)
+    let s = serde_json::to_string(m).ok()?;
+    let key = "\"class_priors\":[";
+    let at = s.find(key)? + key.len();
+    let end = at + s[at..].find(']')?;
+    if s[at..end].trim().is_empty() {
+        return Some(Vec::new());
+    }
+    s[at..end].split(',').map(|t| t.trim().parse::<f64>().ok()).collect()
+}
+
+fn observed(v: V, r: Result<Obs, mc::PanicInfo>, inst: &Inst) -> Option<Obs> {
+    match r {
+        Ok(o) => Some(o),
+        Err(p) => {
+            mc::violation(format!("{}.accessors:panic", v.name()), format!("{}: reading the fitted statistics panicked: {}", inst.brief(), p.brief()));
+            None
+        }
+    }
+}
+
+fn run_library(inst: &Inst) -> Option<(Obs, Pred)> {
+    let x: DM = dm(&inst.x);
+    let q: DM = dm(&inst.queries);
+    let v = inst.v;
+    match v {
+        V::G => {
+            let r = mc::guard(|| {
+                let mut par = GaussianNBParameters::default();
+                if let Some(p) = &inst.priors {
+                    par = par.with_priors(p.clone());
+                }
+                GaussianNB::fit(&x, &inst.y, par)
+            });
+            let m = fitted(v, r, inst)?;
+            let o = mc::guard(|| Obs {
+                classes: m.classes().clone(),
+                class_count: m.class_count().clone(),
+                priors: Some(m.class_priors().clone()),
+                theta: m.theta().clone(),
+                var: m.var().clone(),
+                ..Default::default()
+            });
+            let o = observed(v, o, inst)?;
+            Some((o, to_pred(mc::guard(|| m.predict(&q)))))
+        }
+        V::M => {
+            let r = mc::guard(|| {
+                let mut par = MultinomialNBParameters::default().with_alpha(inst.alpha);
+                if let Some(p) = &inst.priors {
+                    par = par.with_priors(p.clone());
+                }
+                MultinomialNB::fit(&x, &inst.y, par)
+            });
+            let m = fitted(v, r, inst)?;
+            let o = mc::guard(|| Obs {
+                classes: m.classes().clone(),
+                class_count: m.class_count().clone(),
+                priors: serde_priors(&m),
+                n_features: Some(m.n_features()),
+                feature_count: m.feature_count().clone(),
+                flp: m.feature_log_prob().clone(),
+                ..Default::default()
+            });
+            let o = observed(v, o, inst)?;
+            Some((o, to_pred(mc::guard(|| m.predict(&q)))))
+        }
+        V::B => {
+            let r = mc::guard(|| {
+                let mut par = BernoulliNBParameters::default().with_alpha(inst.alpha);
+                par.binarize = inst.bin;
+                if let Some(p) = &inst.priors {
+                    par = par.with_priors(p.clone());
+                }
+                BernoulliNB::fit(&x, &inst.y, par)
+            });
+            let m = fitted(v, r, inst)?;
+            let o = mc::guard(|| Obs {
+                classes: m.classes().clone(),
+                class_count: m.class_count().clone(),
+                priors: serde_priors(&m),
+                n_features: Some(m.n_features()),
+                feature_count: m.feature_count().clone(),
+                flp: m.feature_log_prob().clone(),
+                ..Default::default()
+            });
+            let o = observed(v, o, inst)?;
+            Some((o, to_pred(mc::guard(|| m.predict(&q)))))
+        }
+        V::C => {
+            let r = mc::guard(|| CategoricalNB::fit(&x, &inst.y, CategoricalNBParameters::default().with_alpha(inst.alpha)));
+            let m = fitted(v, r, inst)?;
+            let o = mc::guard(|| Obs {
+                classes: m.classes().clone(),
+                class_count: m.class_count().clone(),
+                priors: serde_priors(&m),
+                n_features: Some(m.n_features()),
+                n_categories: m.n_categories().clone(),
+                cat_count: m.category_count().clone(),
+                cat_lp: m.feature_log_prob().clone(),
+                ..Default::default()
+            });
+            let o = observed(v, o, inst)?;
+            Some((o, to_pred(mc::guard(|| m.predict(&q)))))
+        }
+    }
+}
+
+/// One execution: fit, read back, predict the query rows, judge.
+fn execute(inst: &Inst, catastrophic_only: bool) {
+    let Some((obs, pred)) = run_library(inst) else {
+        mc::describe(|| json!({"instance": inst.to_json(), "fit": "failed"}));
+        return;
+    };
+    mc::count(match inst.v {
+        V::G => "fit_gaussian",
+        V::M => "fit_multinomial",
+        V::B => "fit_bernoulli",
+        V::C => "fit_categorical",
+    });
+    if catastrophic_only {
+        reference::check_catastrophic(inst, &obs, &pred);
+    } else {
+        check(inst, &obs, &pred);
+    }
+    mc::nontrivial();
+    mc::outcome(obs.digest(&pred));
+    mc::describe(|| json!({"instance": inst.to_json(), "observed": obs.to_json(), "predicted": pred.to_json()}));
+}
+
+// ------------------------------------------------------------------------------------------------
+// job kind "lat": the exhaustive lattice
+
+fn cfg_of(job: &Job) -> Cfg {
+    let cfgs = job.params["cfgs"].as_array().expect("cfgs");
+    let c = &cfgs[mc::choose(cfgs.len())];
+    let g = |i: usize| c[i].as_u64().unwrap() as usize;
+    [g(0), g(1), g(2), g(3)]
+}
+
+fn lattice(alph: &[Vec<f64>]) -> Vec<Vec<f64>> {
+    let mut out: Vec<Vec<f64>> = vec![vec![]];
+    for a in alph {
+        let mut nx = Vec::with_capacity(out.len() * a.len());
+        for r in &out {
+            for v in a {
+                let mut r2 = r.clone();
+                r2.push(*v);
+                nx.push(r2);
+            }
+        }
+        out = nx;
+    }
+    out
+}
+
+fn run_lattice(job: &Job) {
+    let v = V::from_code(job.s("v"));
+    let (n, p, k, asz) = (job.u("n"), job.u("p"), job.u("k"), job.u("asz"));
+    let real = job.b("real");
+    let seed = job.params["seed"].as_u64().unwrap_or(0);
+    let cfg = cfg_of(job);
+    let labs = labellings(v, n, k);
+    let (lo, hi) = (job.u("lab_lo"), job.u("lab_hi"));
+    let lab = &labs[lo + mc::choose(hi - lo)];
+    let alph = alphabet(v, real, seed, asz);
+    let mut x = vec![vec![0.0; p]; n];
+    if v == V::G {
+        // drawn per (feature, class) group so that a class with zero variance in a feature — not a
+        // valid Gaussian training set — prunes the whole subtree at once
+        for j in 0..p {
+            for c in 0..k {
+                let rows: Vec<usize> = (0..n).filter(|i| lab[*i] as usize == c).collect();
+                for &i in &rows {
+                    x[i][j] = mc::pick(&alph);
+                }
+                if rows.iter().all(|&i| x[i][j] == x[rows[0]][j]) {
+                    mc::count("gaussian_zero_variance_subtrees_excluded");
+                    return;
+                }
+            }
+        }
+    } else {
+        for row in x.iter_mut() {
+            for e in row.iter_mut() {
+                *e = mc::pick(&alph);
+            }
+        }
+    }
+    let (y, kk): (Vec<f64>, usize) = if v == V::C {
+        (lab.iter().map(|c| *c as f64).collect(), 0)
+    } else {
+        let lm = label_map(k, cfg[0]);
+        (lab.iter().map(|c| lm[*c as usize]).collect(), k)
+    };
+    let queries = if v == V::C {
+        // every in-range category code of every feature
+        let per: Vec<Vec<f64>> = (0..p)
+            .map(|j| {
+                let mx = x.iter().map(|r| r[j] as usize).max().unwrap();
+                (0..=mx).map(|c| c as f64).collect()
+            })
+            .collect();
+        lattice(&per)
+    } else {
+        lattice(&vec![alph.clone(); p])
+    };
+    let inst = Inst {
+        v,
+        x,
+        y,
+        alpha: ALPHAS[(seed % 8) as usize][cfg[1]],
+        priors: if v == V::C { None } else { user_priors(kk, cfg[2]) },
+        bin: if v == V::B { binarize(real, seed, cfg[3]) } else { None },
+        queries,
+    };
+    execute(&inst, false);
+}
+
+// ------------------------------------------------------------------------------------------------
+// job kind "fam": structured families beyond the lattice (every member is enumerated)
+
+const FAM_N: [usize; 6] = [6, 10, 15, 30, 60, 120];
+const FAM_P: [usize; 4] = [1, 3, 5, 8];
+const FAM_K: [usize; 4] = [2, 3, 4, 5];
+
+/// Class sizes: every class gets `m0` rows, the rest is split 2^(k-1-c) : ... (skewed) or evenly.
+fn fam_sizes(n: usize, k: usize, m0: usize, skewed: bool) -> Option<Vec<usize>> {
+    if n < k * m0 {
+        return None;
+    }
+    let r = n - k * m0;
+    let mut s = vec![m0; k];
+    let tot: usize = if skewed { (1 << k) - 1 } else { k };
+    let mut used = 0;
+    for c in 0..k {
+        let w = if skewed { 1 << (k - 1 - c) } else { 1 };
+        let add = r * w / tot;
+        s[c] += add;
+        used += add;
+    }
+    s[0] += r - used;
+    Some(s)
+}
+
+fn run_family(job: &Job) {
+    let v = V::from_code(job.s("v"));
+    let n = job.u("n");
+    let real = job.b("real");
+    let seed = job.params["seed"].as_u64().unwrap_or(0);
+    let p = mc::pick(&FAM_P);
+    let k = mc::pick(&FAM_K);
+    let skew = mc::choose(3); // 0 balanced+interleaved, 1 skewed blocks, 2 skewed scattered (rarest class first)
+    let g = mc::choose(2);
+    let cfg = cfg_of(job);
+    let m0 = if v == V::G { 2 } else { 1 };
+    let Some(sizes) = fam_sizes(n, k, m0, skew != 0) else {
+        mc::count("family_member_too_small");
+        return;
+    };
+    // class index of every row
+    let mut cls: Vec<usize> = Vec::with_capacity(n);
+    match skew {
+        0 => {
+            let mut left = sizes.clone();
+            let mut c = 0;
+            while cls.len() < n {
+                if left[c % k] > 0 {
+                    left[c % k] -= 1;
+                    cls.push(c % k);
+                }
+                c += 1;
+            }
+        }
+        1 => {
+            for (c, s) in sizes.iter().enumerate() {
+                cls.extend(std::iter::repeat(c).take(*s));
+            }
+        }
+        _ => {
+            // blocks in reverse class order, then a fixed stride permutation of the rows
+            let mut blocks: Vec<usize> = Vec::new();
+            for (c, s) in sizes.iter().enumerate().rev() {
+                blocks.extend(std::iter::repeat(c).take(*s));
+            }
+            let stride = [7usize, 11, 13, 17].into_iter().find(|s| gcd(*s, n) == 1).unwrap_or(1);
+            cls = (0..n).map(|i| blocks[(i * stride + 3) % n]).collect();
+        }
+    }
+    let alph = alphabet(v, real, seed, 4);
+    let a = alph.len();
+    let x: Vec<Vec<f64>> = (0..n).map(|i| (0..p).map(|j| alph[(i * (2 * j + 1) + cls[i] * (j + 1 + g) + (i / 3) * g + j) % a]).collect()).collect();
+    if v == V::G {
+        for c in 0..k {
+            for j in 0..p {
+                let col: Vec<f64> = (0..n).filter(|i| cls[*i] == c).map(|i| x[i][j]).collect();
+                if col.iter().all(|e| *e == col[0]) {
+                    mc::count("family_member_zero_variance_excluded");
+                    return;
+                }
+            }
+        }
+    }
+    let lm = if v == V::C { cat_label_map(k, cfg[0] % 2) } else { label_map(k, cfg[0]) };
+    let y: Vec<f64> = cls.iter().map(|c| lm[*c]).collect();
+    // queries: every training row, and as many rows assembled from different training rows
+    let mut queries = x.clone();
+    for i in 0..n {
+        queries.push((0..p).map(|j| x[(i + j + 1 + g) % n][j]).collect());
+    }
+    let inst = Inst {
+        v,
+        x,
+        y,
+        alpha: ALPHAS[(seed % 8) as usize][cfg[1]],
+        priors: if v == V::C { None } else { user_priors(k, cfg[2]) },
+        bin: if v == V::B { binarize(real, seed, cfg[3]) } else { None },
+        queries,
+    };
+    mc::count("family_members");
+    execute(&inst, false);
+}
+
+fn gcd(a: usize, b: usize) -> usize {
+    if b == 0 {
+        a
+    } else {
+        gcd(b, a % b)
+    }
+}
+
+// ------------------------------------------------------------------------------------------------
+// job kind "goff": the Gaussian lattice translated by a large offset
+
+const GOFF: [f64; 5] = [1e3, 1e6, 1e8, 1e10, -1e8];
+
+fn run_goff(job: &Job) {
+    let (n, k) = (job.u("n"), job.u("k"));
+    let off = GOFF[job.u("off")];
+    let labs = labellings(V::G, n, k);
+    let lab = &labs[mc::choose(labs.len())];
+    let mut x = vec![vec![0.0; 1]; n];
+    for c in 0..k {
+        let rows: Vec<usize> = (0..n).filter(|i| lab[*i] as usize == c).collect();
+        for &i in &rows {
+            x[i][0] = mc::pick(&G_BASE) + off;
+        }
+        if rows.iter().all(|&i| x[i][0] == x[rows[0]][0]) {
+            mc::count("gaussian_zero_variance_subtrees_excluded");
+            return;
+        }
+    }
+    let lm = label_map(k, 0);
+    let y: Vec<f64> = lab.iter().map(|c| lm[*c as usize]).collect();
+    let queries = x.clone();
+    let inst = Inst { v: V::G, x, y, alpha: 1.0, priors: None, bin: None, queries };
+    mc::count("offset_instances");
+    execute(&inst, true);
+}
+
+// ------------------------------------------------------------------------------------------------
+// plan
+
+struct Planner {
+    jobs: Vec<(u64, Job)>,
+    seed: u64,
+    chunk: u64,
+    leaves: u64,
+}
+
+impl Planner {
+    /// Lattice space (variant, data kind, n rows, p features, k classes, alphabet size, config set).
+    fn lat(&mut self, v: V, real: bool, n: usize, p: usize, k: usize, asz: usize, part: usize) {
+        let nlab = labellings(v, n, k).len();
+        if nlab == 0 {
+            return;
+        }
+        let a = alphabet(v, real, self.seed, asz).len() as u64;
+        let per_lab = a.pow((n * p) as u32);
+        let cfgs = cfg_set(v, real, part);
+        let total = per_lab * nlab as u64 * cfgs.len() as u64;
+        self.leaves += total;
+        let base = |cf: &[Cfg], lo: usize, hi: usize| -> Value {
+            json!({"kind": "lat", "v": v.code(), "real": real, "n": n, "p": p, "k": k, "asz": asz, "seed": self.seed,
+                   "cfgs": cf.iter().map(|c| c.to_vec()).collect::<Vec<_>>(), "lab_lo": lo, "lab_hi": hi})
+        };
+        let tag = format!("{}{}-n{}-p{}-k{}-a{}", v.code(), if real { "r" } else { "" }, n, p, k, asz);
+        let order = ((n * p) as u64) << 40 | (k as u64) << 32;
+        if total <= self.chunk {
+            self.jobs.push((order | total.min(u32::MAX as u64), Job::new(format!("lat-{}-cfg*{}", tag, cfgs.len()), base(&cfgs, 0, nlab))));
+            return;
+        }
+        let labs_per_job = ((self.chunk / per_lab.max(1)).max(1) as usize).min(nlab);
+        for c in &cfgs {
+            let mut lo = 0;
+            while lo < nlab {
+                let hi = (lo + labs_per_job).min(nlab);
+                let name = format!("lat-{}-cfg{}.{}.{}.{}-lab{}..{}", tag, c[0], c[1], c[2], c[3], lo, hi);
+                self.jobs.push((order | (per_lab * (hi - lo) as u64).min(u32::MAX as u64), Job::new(name, base(&[*c], lo, hi))));
+                lo = hi;
+            }
+        }
+    }
+}
+
+impl Harness for C11 {
+    fn id(&self) -> &'static str {
+        "C11"
+    }
+
+    fn plan(&self, tier: Tier, seed: u64) -> Plan {
+        let t = tier.is_thorough();
+        let mut pl = Planner { jobs: Vec::new(), seed, chunk: if t { 6_000_000 } else { 400_000 }, leaves: 0 };
+        // ---- Gaussian: k=2 needs n>=4, k=3 needs n>=6 (every class >= 2 rows with non-zero variance)
+        pl.lat(V::G, false, 4, 1, 2, 4, 1);
+        pl.lat(V::G, false, 4, 2, 2, 4, 1);
+        pl.lat(V::G, false, 5, 1, 2, 4, 1);
+        pl.lat(V::G, false, 6, 1, 2, 4, 1);
+        pl.lat(V::G, false, 6, 1, 3, 4, 1);
+        pl.lat(V::G, false, 4, 3, 2, 3, 3);
+        pl.lat(V::G, false, 6, 2, 3, 3, if t { 1 } else { 0 });
+        pl.lat(V::G, false, 5, 2, 2, 4, if t { 1 } else { 0 });
+        if t {
+            pl.lat(V::G, false, 6, 2, 2, 3, 1);
+            pl.lat(V::G, false, 7, 1, 2, 4, 1);
+            pl.lat(V::G, false, 7, 1, 3, 4, 1);
+            pl.lat(V::G, false, 6, 2, 3, 4, 0);
+        }
+        // ---- multinomial
+        for n in 2..=3 {
+            for p in 1..=3 {
+                for k in 2..=n {
+                    pl.lat(V::M, false, n, p, k, 4, 1);
+                }
+            }
+        }
+        for k in 2..=3 {
+            pl.lat(V::M, false, 4, 1, k, 4, 1);
+            pl.lat(V::M, false, 4, 2, k, 4, if t { 1 } else { 0 });
+            pl.lat(V::M, false, 4, 2, k, 3, if t { 1 } else { 3 });
+            if t {
+                pl.lat(V::M, false, 5, 1, k, 4, 1);
+                pl.lat(V::M, false, 5, 2, k, 3, 3);
+                pl.lat(V::M, false, 5, 2, k, 4, 0);
+                pl.lat(V::M, false, 4, 3, k, 3, 3);
+            }
+        }
+        // ---- Bernoulli, 0/1 data and thresholded reals
+        for n in 2..=3 {
+            for p in 1..=3 {
+                for k in 2..=n {
+                    pl.lat(V::B, false, n, p, k, 2, 1);
+                    if p <= 2 {
+                        pl.lat(V::B, true, n, p, k, 4, 1);
+                    }
+                }
+            }
+        }
+        for k in 2..=3 {
+            for p in 1..=2 {
+                pl.lat(V::B, false, 4, p, k, 2, 1);
+            }
+            pl.lat(V::B, false, 4, 3, k, 2, if t { 1 } else { 3 });
+            pl.lat(V::B, true, 4, 1, k, 4, 1);
+            pl.lat(V::B, true, 4, 2, k, 3, if t { 1 } else { 0 });
+            if t {
+                pl.lat(V::B, true, 4, 2, k, 4, 3);
+                pl.lat(V::B, false, 5, 1, k, 2, 1);
+                pl.lat(V::B, false, 5, 2, k, 2, 1);
+                pl.lat(V::B, false, 5, 3, k, 2, 3);
+                pl.lat(V::B, false, 4, 4, k, 2, 3);
+                pl.lat(V::B, true, 5, 1, k, 4, 1);
+                pl.lat(V::B, true, 5, 2, k, 3, 0);
+            }
+        }
+        // ---- categorical (labels are values 0..=3, so k is not a dimension)
+        for n in 2..=4 {
+            for p in 1..=2 {
+                pl.lat(V::C, false, n, p, 0, 3, 1);
+            }
+        }
+        pl.lat(V::C, false, 3, 3, 0, 3, 1);
+        if t {
+            pl.lat(V::C, false, 5, 1, 0, 3, 1);
+            pl.lat(V::C, false, 5, 2, 0, 3, 1);
+            pl.lat(V::C, false, 4, 3, 0, 2, 1);
+        }
+        let lattice_leaves = pl.leaves;
+        let mut jobs = pl.jobs;
+        jobs.sort_by_key(|j| j.0);
+        let mut jobs: Vec<Job> = jobs.into_iter().map(|j| j.1).collect();
+        // ---- structured families
+        for (v, real) in [(V::G, false), (V::M, false), (V::B, false), (V::B, true), (V::C, false)] {
+            for n in FAM_N {
+                let cfgs = cfg_set(v, real, if t || v == V::C || v == V::G { 1 } else { 3 });
+                jobs.push(Job::new(
+                    format!("fam-{}{}-n{}", v.code(), if real { "r" } else { "" }, n),
+                    json!({"kind": "fam", "v": v.code(), "real": real, "n": n, "seed": seed, "cfgs": cfgs.iter().map(|c| c.to_vec()).collect::<Vec<_>>()}),
+                ));
+            }
+        }
+        // ---- Gaussian lattice at large offsets
+        for off in 0..GOFF.len() {
+            for (n, k) in [(4usize, 2usize), (5, 2), (6, 3)] {
+                jobs.push(Job::new(format!("goff-n{}-k{}-off{:e}", n, k, GOFF[off]), json!({"kind": "goff", "n": n, "k": k, "off": off})));
+            }
+        }
+        Plan {
+            jobs,
+            budget_s: if t { 2700 } else { 40 },
+            case_deadline_ms: 20_000,
+            floors: vec![
+                ("fit_gaussian", 10_000),
+                ("fit_multinomial", 100_000),
+                ("fit_bernoulli", 100_000),
+                ("fit_categorical", 100_000),
+                ("labels_not_0_to_k-1", 100_000),
+                ("labels_negative", 50_000),
+                ("user_priors", 100_000),
+                ("alpha_not_1", 100_000),
+                ("class_sizes_differ", 100_000),
+                ("categorical_empty_class", 10_000),
+                ("bernoulli_binarized", 10_000),
+                ("bernoulli_value_equals_threshold", 1_000),
+                ("priors_observed_via_serde", 100_000),
+                ("queries_judged", 1_000_000),
+                ("queries_judged_outside_training_set", 100_000),
+                ("map_tie_accepted", 1_000),
+                ("prediction_not_the_largest_prior_class", 10_000),
+                ("predictions_vary_within_execution", 10_000),
+                ("family_members", 1_000),
+                ("offset_instances", 1_000),
+            ],
+            bounds: json!({
+                "lattice": "every training set over the variant's alphabet with every labelling (G/M/B: onto k classes; Gaussian: every class >= 2 rows and non-zero variance; categorical: label values 0..3 with gaps) x configuration set; see NOTES.md for the (n,p,k,alphabet,config-set) list per tier",
+                "lattice_leaves_upper_bound": lattice_leaves,
+                "alphabets": {"gaussian": G_BASE, "multinomial": M_ALPH[(seed % 8) as usize], "bernoulli": "{0,1} (binarize none/0/0.5) and reals {-0.5,0.2,0.7,1.5} with thresholds {0,0.5,0.7}", "categorical": C_ALPH, "alpha": ALPHAS[(seed % 8) as usize]},
+                "label_maps": "0..k-1, {-3,7,10}, {2,3}/{1,2,4}, {-1,1}/{-2^40,5,2^52}",
+                "user_priors": "none + two dyadic prior vectors per k",
+                "queries": "the full alphabet^p lattice (categorical: every in-range code); judged when every value occurred in that column of the training set",
+                "families": format!("n in {:?} x p in {:?} x k in {:?} x 3 class layouts x 2 generators x configurations", FAM_N, FAM_P, FAM_K),
+                "offsets": format!("Gaussian p=1 lattice translated by {:?}", GOFF),
+            }),
+        }
+    }
+
+    fn run(&self, job: &Job) {
+        match job.kind() {
+            "lat" => run_lattice(job),
+            "fam" => run_family(job),
+            "goff" => run_goff(job),
+            other => panic!("unknown job kind {}", other),
+        }
+    }
+
+    fn rule(&self) -> String {
+        "one execution = one (variant, training set, labelling, label values, alpha, priors, binarisation) fitted by the real library and judged on every statistic and every query row; non-trivial = the fit returned a model on a valid training set with >= 2 classes; distinct = distinct digest of the reported classes, counts, statistics (12 significant digits) and predicted labels".into()
+    }
+
+    fn assumptions(&self) -> Vec<String> {
+        vec![
+            "variance = population variance (second central moment of the class's empirical distribution)".into(),
+            "binarisation maps x > threshold to 1, everything else to 0 (documented behaviour of binarize)".into(),
+            "a query row is judged only when each of its values occurred in the same column of the training set; other lattice rows are compared and counted but never reported".into(),
+            "the class order reported by classes() is not prescribed; statistics are matched to classes by label, user priors by position in classes()".into(),
+            "priors of the multinomial, Bernoulli and categorical variants are read from the serde serialisation (no accessor exists)".into(),
+            "no RNG on any explored path (naive Bayes draws nothing); HashMap is used for look-ups only".into(),
+        ]
+    }
+}
+
 fn main() {
-    eprintln!("MACHINERY-ERROR: harness C11 not built yet");
-    std::process::exit(2);
+    mc::main(C11)
 }
